@@ -280,6 +280,40 @@ func runC16(res *result) {
 			pexps = append(pexps, e)
 		}
 	}
+	// a handler that returns a nil value of a nillable result type (struct pointer, list, binary): every
+	// middleware still sees a typed nil, the processor answers, the caller gets one reply
+	type nexp struct {
+		cs    *callSpec
+		desc  string
+		chain []mwSpec
+		point string
+	}
+	var nexps []nexp
+	for _, l := range mwLists(1, []string{"observe"}) {
+		for _, point := range []string{"client", "processor"} {
+			for _, m := range []struct {
+				goName, wire string
+				args         []*idl.V
+				argT         []*idl.RT
+				ret          *idl.RT
+			}{
+				{"Move", "move", []*idl.V{pointV(1, "a"), iv(2)}, []*idl.RT{pointRTc16(r, main), i32}, pointRTc16(r, main)},
+				{"Names", "names", []*idl.V{iv(3)}, []*idl.RT{i32}, r.Resolve(main, idl.List(idl.T("string")))},
+				{"Blob", "blob", nil, nil, r.Resolve(main, idl.T("binary"))},
+			} {
+				cs := &callSpec{Kind: "rpc", Service: "Svc", Method: m.goName, WireMethod: m.wire, Args: m.args, ArgTypes: m.argT, RetType: m.ret,
+					Transport: "direct", Proto: "binary", Cid: "c", TimeoutMs: 1000, Outcome: &outcomeSpec{Kind: "return"}}
+				chain := prefix(l, "mw-")
+				if point == "client" {
+					cs.ClientMW = chain
+				} else {
+					cs.ProcessorMW = chain
+				}
+				plan.Ops = append(plan.Ops, drvOp{Op: "call", Call: cs})
+				nexps = append(nexps, nexp{cs, fmt.Sprintf("Svc.%s whose handler returns a nil %s, middleware at %s: %s", m.wire, m.ret.K, point, describeList(l)), chain, point})
+			}
+		}
+	}
 	res.Nontrivial = int64(len(plan.Ops))
 	pj, _ := json.Marshal(plan)
 	out, err := runDriver(u, pj)
@@ -401,6 +435,41 @@ func runC16(res *result) {
 			res.fail(finding{Key: "C16/trace/" + point, Atom: e.desc, IDL: u.texts, Msg: fmt.Sprintf("%s: trace %v (handler calls %d), list composition gives %v", e.desc, got, cr.HandlerCalls, want)})
 		}
 	}
+	for k, e := range nexps {
+		i := len(exps) + len(pexps) + k
+		res.Evaluations++
+		var cr callResult
+		json.Unmarshal(results[i].Call, &cr)
+		key := "C16/nil-result/" + e.point + "/" + e.cs.WireMethod
+		if results[i].Panic != "" || cr.Err != "" {
+			res.fail(finding{Key: key, Atom: e.desc, IDL: u.texts, Msg: e.desc + ": the call failed: " + results[i].Panic + cr.Err})
+			continue
+		}
+		var want, got []string
+		for q := len(e.chain) - 1; q >= 0; q-- {
+			want = append(want, "enter:"+e.chain[q].ID)
+		}
+		for q := 0; q < len(e.chain); q++ {
+			want = append(want, "exit:"+e.chain[q].ID)
+		}
+		untyped := ""
+		for _, t := range cr.Trace {
+			if strings.HasPrefix(t, "UNTYPED-NIL-RESULT:") {
+				untyped = t
+				continue
+			}
+			p := strings.SplitN(t, ":", 3)
+			got = append(got, p[0]+":"+p[1])
+		}
+		switch {
+		case untyped != "":
+			res.fail(finding{Key: key, Atom: e.desc, IDL: u.texts, Msg: e.desc + ": a middleware saw a bare nil interface instead of the typed nil the handler returned (" + untyped + ")"})
+		case strings.Join(got, " ") != strings.Join(want, " ") || cr.HandlerCalls != 1:
+			res.fail(finding{Key: key, Atom: e.desc, IDL: u.texts, Msg: fmt.Sprintf("%s: trace %v (handler calls %d), expected %v", e.desc, got, cr.HandlerCalls, want)})
+		case len(cr.ReplyFrames) != 1:
+			res.fail(finding{Key: key, Atom: e.desc, IDL: u.texts, Msg: fmt.Sprintf("%s: %d reply frames", e.desc, len(cr.ReplyFrames))})
+		}
+	}
 }
 
 // clientThenServer evaluates client-side middleware around the remote call whose server side has its
@@ -472,3 +541,5 @@ func normTrace(t []string) []string {
 	}
 	return out
 }
+
+func pointRTc16(r *idl.Resolver, main *idl.File) *idl.RT { return r.Resolve(main, idl.T("Point")) }
